@@ -681,6 +681,50 @@ def suite_fault_listing(binf, tier, rng):
                 out["dist"][kind] = out["dist"].get(kind, 0) + 1
     return out
 
+def suite_eintr(binf, tier, rng):
+    """C08 under interrupted system calls: a streamed write whose declared size and integrity are CORRECT, with one write(2)
+    of its data interrupted (EINTR; the standard library re-issues it).  If every call of the writer answered ok, commit must
+    succeed (the declarations match), map the key, and the data must read back; no content file may mis-hash."""
+    out = {"runs": 0, "skipped": 0, "failures": [], "dist": {}}
+    fls = ["sync"] if binf == "sync" else ["sync", "async"]
+    K = kx("eintr")
+    for fl in fls:
+        for algo, n, csz in (("sha256", 40000, 7777), ("sha1", 9, 3)) if tier == "quick" else (("sha256", 40000, 7777), ("sha1", 9, 3), ("sha512", 2 * 1048576 + 5, 1048576), ("xxh3", 70000, 16384)):
+            data = bytes((i * 31 + 5) % 253 for i in range(n))
+            ops = [{"op": "open", "fl": fl, "w": 1, "key": K, "algo": algo, "sri": hashes.sri(algo, data)}]
+            if n <= 9:
+                ops[0]["size"] = n
+            ops += [{"op": "wchunk", "w": 1, "data": data[i:i + csz].hex(), "mode": "write_all"} for i in range(0, n, csz)]
+            ops.append({"op": "commit", "w": 1})
+            name = f"{fl} streamed write of {n} bytes ({algo}) with correct declared integrity, one write(2) interrupted"
+            mk = make_state_fn(binf, [])
+            for t in range(1, len(ops) - 1):
+                def after(cache, ext, C, errno, _binf=binf):
+                    return {"content_bad": content_oracle(cache), "own": lookups(_binf, cache, ext, [K])}
+                res = T.fault_sweep(binf, mk, ops, t, errnos=("EINTR",), after=after, jobs=8,
+                                    select=lambda c: c["name"] in ("write", "pwrite64", "writev") and T._inside(c))
+                for r in res:
+                    out["runs"] += 1
+                    if not r["ok"]:
+                        out["skipped"] += 1; continue
+                    ans = r["results"] or []
+                    tag = f"{name} / op {t} / EINTR at {T.brief(r['call'])[:70]}"
+                    rep = {"scenario": name, "flavour": binf, "ops": ops, "target": t, "errno": "EINTR", "at": T.brief(r["call"])}
+                    a = r["after"]
+                    if a["content_bad"]:
+                        out["failures"].append({"concrete": True, "text": f"{tag}: {a['content_bad'][0]}", "replay": rep}); continue
+                    allok = len(ans) >= len(ops) - 1 and all(x is not None and x.get("r") == "ok" for x in ans[:len(ops) - 1])
+                    out["dist"]["all writer calls ok" if allok else "a writer call reported the interruption"] = out["dist"].get("all writer calls ok" if allok else "a writer call reported the interruption", 0) + 1
+                    if not allok:
+                        continue
+                    cm = ans[len(ops) - 1] if len(ans) >= len(ops) else None
+                    if cm is None or cm.get("r") != "ok":
+                        out["failures"].append({"concrete": True, "text": f"{tag}: every write call succeeded and the declarations match the data, but commit answered {str(cm)[:120]}", "replay": rep}); continue
+                    got = a["own"][("read", K)]
+                    if got != ("ok", "bytes", data.hex()):
+                        out["failures"].append({"concrete": True, "text": f"{tag}: commit succeeded but reading the key gives {str(got)[:120]}", "replay": rep})
+    return out
+
 def suite_fault_retry(binf, tier, rng):
     """once the fault is gone the same call succeeds: failed call, then the same op again in the same process"""
     out = {"runs": 0, "skipped": 0, "failures": [], "dist": {}}
@@ -790,12 +834,22 @@ def suite_confine(binf, tier, rng):
     keys = HOSTILE if tier != "quick" else rng.sample(HOSTILE, 10) + ["../../etc/passwd", "nul\x00byte"]
     keys = keys + ["".join(chr(rng.choice([rng.randrange(32, 127), rng.randrange(0xa0, 0x2000), rng.randrange(0x1f300, 0x1f600)])) for _ in range(rng.randrange(1, 12)))
                    for _ in range(3 if tier == "quick" else 20)]
+    keys = keys + ["@ABS@"]
     for key in keys:
         fl = rng.choice(fls)
+        base = tempfile.mkdtemp(prefix="cf", dir=T.SCRATCH if os.path.isdir(T.SCRATCH) else None)
+        absk = key == "@ABS@"
+        if absk:
+            # a key that is an absolute path into an existing directory outside the cache and outside the caller's directory
+            key = os.path.join(base, "escape", "target")
         K = kx(key)
         D = rng.randbytes(rng.choice([0, 1, 7, 300]))
         sri = hashes.sri("sha256", D)
         ops = [{"op": "write", "fl": fl, "key": K, "data": D.hex(), "algo": "sha256"},
+               # extraction whose destination is an existing directory: an error, and nothing is written below it
+               {"op": "copy", "fl": fl, "by": "key", "checked": True, "key": K, "to": "dir1"},
+               {"op": "copy", "fl": fl, "by": "key", "checked": False, "key": K, "to": "dir1"},
+               {"op": "hard_link", "fl": fl, "by": "key", "checked": True, "key": K, "to": "dir1"},
                {"op": "metadata", "fl": fl, "key": K}, {"op": "read", "fl": fl, "key": K}, {"op": "read_hash", "fl": fl, "sri": sri},
                {"op": "exists", "fl": fl, "sri": sri}, {"op": "list"},
                {"op": "ropen", "fl": fl, "r": 1, "key": K}, {"op": "rall", "r": 1}, {"op": "rcheck", "r": 1},
@@ -815,7 +869,6 @@ def suite_confine(binf, tier, rng):
         ops_idx = [{"op": "insert", "fl": fl, "key": K, "sri": sri, "size": 3}, {"op": "metadata", "fl": fl, "key": K}, {"op": "list"},
                    {"op": "remove", "fl": fl, "key": K}, {"op": "remove_opts", "fl": fl, "key": K, "fully": True}, {"op": "list"}]
         ops = [{k: v for k, v in op.items() if v is not None} for op in ops]
-        base = tempfile.mkdtemp(prefix="cf", dir=T.SCRATCH if os.path.isdir(T.SCRATCH) else None)
         try:
           # a key with a long history (75 records in its bucket): read-only calls stay read-only whatever the bucket's length
           ops_long = []
@@ -830,6 +883,8 @@ def suite_confine(binf, tier, rng):
             shutil.rmtree(base, ignore_errors=True); os.makedirs(base)
             cache, ext, cwd = os.path.join(base, "solo", "c"), os.path.join(base, "e"), os.path.join(base, "cwd")
             for d in (cache, ext, cwd): os.makedirs(d)
+            os.makedirs(os.path.join(ext, "dir1"))
+            if absk: os.makedirs(os.path.join(base, "escape"))
             before_out = sorted(os.listdir(cwd))
             tr = T.trace_ops(binf, cache, ext, ops, cwd=cwd)
             out["runs"] += 1
@@ -853,6 +908,8 @@ def suite_confine(binf, tier, rng):
                     for root, rel in c.get("paths") or []:
                         if root == "e" and op["op"] not in ("copy", "hard_link", "reflink"):
                             out["failures"].append({"concrete": True, "text": f"key {key!r}: {op['op']} touched the caller's directory: {T.brief(c)[:160]}", "replay": rep})
+                        if root == "e" and op["op"] in ("copy", "hard_link", "reflink") and rel != op.get("to"):
+                            out["failures"].append({"concrete": True, "text": f"key {key!r}: {op['op']} to {op.get('to')!r} touched another path of the caller's directory: {T.brief(c)[:160]}", "replay": rep})
                         if root == "c":
                             comps = rel.split("/") if rel else []
                             if any(x in ("", ".", "..") or "\x00" in x for x in comps):
@@ -865,6 +922,56 @@ def suite_confine(binf, tier, rng):
                     if c["name"] in ("openat", "open", "creat") and any(r == "c" and p.startswith("content-v2/") for r, p in c.get("paths") or []):
                         out["failures"].append({"concrete": True, "text": f"key {key!r}: a content file was opened for writing in place: {T.brief(c)[:160]}", "replay": rep})
             T.cleanup(tr)
+        finally:
+            shutil.rmtree(base, ignore_errors=True)
+    return out
+
+def suite_chdir(binf, tier, rng):
+    """C15 with a relative cache path: the process works on ./c in one directory, changes its working directory, and works on
+    ./c there (another cache).  Everything the second cache's calls do stays inside the second cache: the first cache's tree
+    is byte-for-byte unchanged while a writer of the second is open, after its commit, and after removals."""
+    import tempfile, shutil
+    out = {"runs": 0, "skipped": 0, "failures": [], "dist": {}}
+    fls = ["sync"] if binf == "sync" else ["sync", "async"]
+    def snap(root):
+        items = []
+        for d, dirs, files in os.walk(root):
+            for n in sorted(dirs): items.append((os.path.relpath(os.path.join(d, n), root), "dir"))
+            for n in sorted(files):
+                p = os.path.join(d, n)
+                with open(p, "rb") as f: items.append((os.path.relpath(p, root), hashlib.sha256(f.read()).hexdigest()))
+        return sorted(items)
+    for fl in fls:
+        base = tempfile.mkdtemp(prefix="cd", dir=T.SCRATCH if os.path.isdir(T.SCRATCH) else None)
+        rep = {"flavour": binf, "scenario": f"{fl}: relative cache path 'c', chdir between two caches"}
+        try:
+            first, second, ext = os.path.join(base, "first"), os.path.join(base, "second"), os.path.join(base, "e")
+            for d in (first, second, ext): os.makedirs(d)
+            ip = ImplProc(binf, "c", ext, cwd=first)
+            try:
+                K1, K2 = kx("one"), kx("two")
+                r = ip.op({"op": "write", "fl": fl, "key": K1, "data": b"in the first cache".hex()})
+                s0 = snap(os.path.join(first, "c"))
+                ip.op({"op": "chdir", "to": second})
+                steps_ = [("an open writer of the second cache", [{"op": "open", "fl": fl, "w": 2, "key": K2}, {"op": "wchunk", "w": 2, "data": b"in the second cache".hex(), "mode": "write_all"}]),
+                          ("its commit", [{"op": "commit", "w": 2}]),
+                          ("a one-shot write and a read", [{"op": "write", "fl": fl, "key": kx("three"), "data": b"3".hex()}, {"op": "read", "fl": fl, "key": K2}]),
+                          ("a full removal and a clear", [{"op": "remove_opts", "fl": fl, "key": K2, "fully": True}, {"op": "clear", "fl": fl}])]
+                for what, ops in steps_:
+                    rs = [ip.op(o) for o in ops]
+                    out["runs"] += 1
+                    s1 = snap(os.path.join(first, "c"))
+                    if s1 != s0:
+                        diff = sorted(set(s1) ^ set(s0))[:3]
+                        out["failures"].append({"concrete": True, "text": f"{rep['scenario']}: {what} changed the FIRST cache: {diff}", "replay": dict(rep, ops=ops)}); break
+                    if what == "a one-shot write and a read" and (rs[-1].get("r") != "ok" or rs[-1].get("v") != b"in the second cache".hex()):
+                        out["failures"].append({"concrete": True, "text": f"{rep['scenario']}: the entry written through ./c after the chdir does not read back: {str(rs[-1])[:120]}", "replay": dict(rep, ops=ops)}); break
+                ip.op({"op": "chdir", "to": first})
+                rd = ip.op({"op": "read", "fl": fl, "key": K1})
+                if rd.get("r") != "ok" or rd.get("v") != b"in the first cache".hex():
+                    out["failures"].append({"concrete": True, "text": f"{rep['scenario']}: back in the first directory its entry reads {str(rd)[:120]}", "replay": rep})
+            finally:
+                ip.close()
         finally:
             shutil.rmtree(base, ignore_errors=True)
     return out
